@@ -145,7 +145,9 @@ def catalogue_specs(ctx, cases, n_target, base):
               prog_with('def gen(n):')),
              (lambda c: c['t'] in ('e_first_args', 'e_first_list', 'e_first_tuple', 'e_set_fr', 'e_call_first_rest', 'e_a0_args',
                                    'e_a0_wrap', 'e_a0_two', 's_for_chain', 's_if_check', 's_if_list', 's_for_list'),
-              prog_with('p1 = [(1, 2), a, b]'))]
+              prog_with('p1 = [(1, 2), a, b]')),
+             (lambda c: c['p'] in ('call_r0', 'class_b0', 'call_a0') and c['t'] in ('e_a0_args', 'e_a0_wrap', 's_class_rest'),
+              prog_with('r7 = spread(p0, p1, sep=s, *tail)'))]
     plainrow = [c for c in cases if c['s']['loop'] == 0 and c['s']['on'] == 'enter' and c['s']['cb'] and c['s']['count'] == 0
                 and c['s']['docstr'] and not c['s']['back']]
     plainrow.sort(key=lambda c: (c['p'], c['t'], c['s']['nested']))
